@@ -953,6 +953,7 @@ package connect
 //@   ensures called("context.Context.Err", 1) && callres("context.Context.Err", 1) == context.Canceled ==> n == 0 && coded(err) && codeOf(err) == 1   // label: canceled-before-read
 //@   ensures called("context.Context.Err", 1) && callres("context.Context.Err", 1) == context.DeadlineExceeded ==> n == 0 && coded(err) && codeOf(err) == 4   // label: expired-before-read
 //@   ensures old(d.err) != nil ==> n == 0 && err == old(d.err)                                      // label: error-is-sticky
+//@   ensures called("io.ReadCloser.Read", 1) ==> d.err == old(d.err)                                // label: a-body-read-records-no-error-the-protocol-layer-decides-how-the-call-ended   // tags: C03, C04
 //@   ensures called("io.ReadCloser.Read", 1) ==> n == callres("io.ReadCloser.Read", 1, 0) && (callres("io.ReadCloser.Read", 1, 1) == nil ==> err == nil) && (coded(callres("io.ReadCloser.Read", 1, 1)) ==> err == callres("io.ReadCloser.Read", 1, 1))   // label: passes-the-body's-read-through
 //@   ensures called("io.ReadCloser.Read", 1) && Is(callres("io.ReadCloser.Read", 1, 1), context.Canceled) && !coded(callres("io.ReadCloser.Read", 1, 1)) ==> coded(err) && codeOf(err) == 1   // label: cancellation-reported-by-the-body-is-canceled
 //@   ensures called("io.ReadCloser.Read", 1) && !Is(callres("io.ReadCloser.Read", 1, 1), context.Canceled) && Is(callres("io.ReadCloser.Read", 1, 1), context.DeadlineExceeded) && !coded(callres("io.ReadCloser.Read", 1, 1)) ==> coded(err) && codeOf(err) == 4   // label: expiry-reported-by-the-body-is-deadline-exceeded
@@ -1379,9 +1380,11 @@ package connect
 //@   doc: "the two closures installed by grpcClient.NewConn (HTTP trailers after draining the body / the gRPC-Web trailer frame); not yet under contract"
 
 //@ func (*grpcClientConn).Receive(cc, msg) err
-//@   tags C04, C06
+//@   tags C04, C06, C03, C11
 //@   requires cc != nil && cc.duplexCall != nil && cc.duplexCall.requestBodyReader != nil && cc.responseTrailer != nil && cc.responseHeader != nil && cc.bufferPool != nil && cc.protobuf != nil && cc.readTrailers != nil
 //@   requires cc.unmarshaler.envelopeReader.reader != nil && !pooled(cc.unmarshaler.envelopeReader.reader) && termerr(cc.unmarshaler.envelopeReader.reader) != errSpecialEnvelope && cc.unmarshaler.envelopeReader.bufferPool != nil && cc.unmarshaler.envelopeReader.codec != nil
+//@   assert@call(field:grpcClientConn.readTrailers#1): !called("(*duplexHTTPCall).SetError", 1) && !called("(*duplexHTTPCall).SetError", 2) && !called("(*duplexHTTPCall).SetError", 3)   // label: trailers-are-read-before-the-call-is-marked-failed-so-the-body-can-still-be-drained   // tags: C03, C04
+//@   assert@call(mergeHeaders#1): arg0 == cc.responseTrailer && arg1 == callres("field:grpcClientConn.readTrailers", 1)   // label: the-trailers-read-join-the-response-trailers   // tags: C11, C03
 //@   assigns everything
 //@   ensures callres("(*grpcUnmarshaler).Unmarshal", 1) == nil ==> err == nil                          // label: a-decoded-message-is-delivered
 //@   ensures err != nil && Is(err, io.EOF) ==> (called("grpcErrorFromTrailer", 1) && (callres("grpcErrorFromTrailer", 1) == nil || err == callres("grpcErrorFromTrailer", 1))) || callres("(http.Header).Get", 1) != ""   // label: clean-end-only-with-grpc-status-in-trailers-or-headers
